@@ -38,7 +38,7 @@ def signable_batch(ck: Check, n: int, want_modes=(False, True)):
 
 
 def run(ck: Check) -> None:
-    n = 2500 if ck.thorough else 450
+    n = ck.n(2500, 450)
     batch = signable_batch(ck, n)
     res = ck.run_cases([b[0] for b in batch], "corr:verify_signable/outcome-class")
     for (case, want, c), r in zip(batch, res):
@@ -53,7 +53,7 @@ def run(ck: Check) -> None:
     # soundness of what is built on it: delegation and root verification accept only with the trusted rule met
     rng = ck.rng
     dcases = []
-    for i in range(300 if ck.thorough else 60):
+    for i in range(ck.n(300, 60)):
         gpg = bool(i % 2)
         c = envgen.signable_case(rng, gpg, ck.dist)
         role = rng.choice(["pkg_mgr", "key_mgr", "x"])
